@@ -133,14 +133,30 @@ fn do_top<'p>(sess: &mut Session<'p>, t: &Thunk<'p>, tla: &[(String, bool, Strin
     (sess.manifest_json(&v, true), Some(v))
 }
 
+/// `p` vanishes; `dir:p` is replaced by a directory of the same name (exists, canonicalises, cannot be read)
 fn hide(paths: &[String]) {
     for p in paths {
-        let _ = std::fs::rename(p, format!("{p}.hidden"));
+        match p.strip_prefix("dir:") {
+            Some(p) => {
+                let _ = std::fs::rename(p, format!("{p}.hidden"));
+                let _ = std::fs::create_dir(p);
+            }
+            None => {
+                let _ = std::fs::rename(p, format!("{p}.hidden"));
+            }
+        }
     }
 }
 
 fn unhide(paths: &[String]) {
     for p in paths {
+        let p = match p.strip_prefix("dir:") {
+            Some(p) => {
+                let _ = std::fs::remove_dir(p);
+                p
+            }
+            None => p,
+        };
         let _ = std::fs::rename(format!("{p}.hidden"), p);
     }
 }
@@ -505,7 +521,7 @@ pub fn check_history(h: &History, st: &mut SessStats, err: &mut ErrReader) -> Op
                 continue;
             }
             let ok = (op.fault.stack.is_some() && is_overflow(out))
-                || (!op.fault.import_fail.is_empty() && out.json.is_none() && (out.stderr.contains("failed to import") || out.stderr.contains("does not exist") || out.stderr.contains("not found in search path") || out.stderr.contains("failed to read")));
+                || (!op.fault.import_fail.is_empty() && out.json.is_none() && (out.stderr.contains("failed to import") || out.stderr.contains("does not exist") || out.stderr.contains("not found in search path") || out.stderr.contains("failed to read") || out.stderr.contains("Is a directory")));
             if ok {
                 st.faulted_ok += 1;
                 continue;
@@ -551,7 +567,7 @@ pub fn gen_session_history(root: u64, i: u64) -> History {
         for op in h.ops.iter_mut() {
             op.fault.native_fail.clear();
             if !op.fault.import_fail.is_empty() {
-                op.fault.import_fail = vec![(*f.pick(&["lib.libsonnet", "lib/sub.libsonnet", "j/util.libsonnet", "d/extra.libsonnet"])).to_string()];
+                op.fault.import_fail = vec![(*f.pick(&["lib.libsonnet", "lib/sub.libsonnet", "j/util.libsonnet", "d/extra.libsonnet", "dir:lib.libsonnet", "dir:lib/sub.libsonnet", "dir:d/extra.libsonnet"])).to_string()];
             }
         }
     }
@@ -652,7 +668,13 @@ pub struct Batch {
 }
 
 fn spawn_child(args: &[String], tag: &str) -> Result<String, String> {
-    let exe = std::env::current_exe().map_err(|e| e.to_string())?;
+    let mut exe = std::env::current_exe().map_err(|e| e.to_string())?;
+    if !exe.exists() {
+        // the binary was rebuilt while this process runs: /proc/self/exe reads "<path> (deleted)"
+        if let Some(p) = exe.to_str().and_then(|s| s.strip_suffix(" (deleted)")) {
+            exe = PathBuf::from(p);
+        }
+    }
     let errp = scratch_dir().with_file_name(format!("verif-sess-err-{:07}-{tag}", std::process::id()));
     let errf = std::fs::File::create(&errp).map_err(|e| e.to_string())?;
     let out = std::process::Command::new(exe).args(args).env("VERIF_SESS_ERR", &errp).stderr(errf).stdin(std::process::Stdio::null()).output().map_err(|e| e.to_string())?;
